@@ -335,7 +335,8 @@ func Sequences(l []ref.Column, n int) [][]ref.Column {
 }
 
 // NullPatterns returns the distinct nullability bitmaps for n columns:
-// exhaustive up to 4 columns, structured beyond.
+// exhaustive up to 4 columns, structured beyond. The quick set is a prefix of
+// the thorough set.
 func NullPatterns(n int, thorough bool) [][]bool {
 	var out [][]bool
 	seen := map[string]bool{}
@@ -367,26 +368,24 @@ func NullPatterns(n int, thorough bool) [][]bool {
 	fill(func(int) bool { return false })
 	fill(func(i int) bool { return i%2 == 0 })
 	fill(func(i int) bool { return i%2 == 1 })
-	pos := map[int]bool{0: true, n - 1: true}
-	if thorough {
-		for k := 8; k-1 < n; k += 8 {
-			pos[k-1], pos[k] = true, true
-			pos[k+1] = true
-		}
-	} else {
-		pos[7], pos[8], pos[9] = true, true, true
-		pos[n-2] = true
-		last := (n - 1) / 8 * 8 // first bit of the last bitmap byte
-		pos[last-1], pos[last] = true, true
-	}
-	for b := 0; b < n; b++ {
-		if !pos[b] {
+	last := (n - 1) / 8 * 8 // first bit of the last bitmap byte
+	for _, b := range []int{0, 7, 8, 9, last - 1, last, n - 2, n - 1} {
+		if b < 0 || b >= n {
 			continue
 		}
 		b := b
 		fill(func(i int) bool { return i == b })
-		if thorough {
-			fill(func(i int) bool { return i != b })
+	}
+	if thorough {
+		for k := 8; k-1 < n; k += 8 {
+			for _, b := range []int{k - 1, k, k + 1} {
+				if b >= n {
+					continue
+				}
+				b := b
+				fill(func(i int) bool { return i == b })
+				fill(func(i int) bool { return i != b })
+			}
 		}
 	}
 	return out
@@ -408,17 +407,18 @@ func MakeName(n, rot int) string {
 }
 
 type idCfg struct {
-	six bool
-	id  uint64
+	six  bool
+	id   uint64
+	asym bool // the byte-pattern id used by the tail product
 }
 
 func idCfgs() []idCfg {
 	var l []idCfg
-	for _, id := range []uint64{0, 1, 1 << 24, 1<<32 - 1, 0x04030201} {
-		l = append(l, idCfg{false, id})
+	for _, id := range []uint64{0x04030201, 0, 1, 1 << 24, 1<<32 - 1} {
+		l = append(l, idCfg{false, id, id == 0x04030201})
 	}
-	for _, id := range []uint64{0, 1, 1 << 24, 1<<32 - 1, 1 << 32, 1<<48 - 1, 0x060504030201} {
-		l = append(l, idCfg{true, id})
+	for _, id := range []uint64{0x060504030201, 0, 1, 1 << 24, 1<<32 - 1, 1 << 32, 1<<48 - 1} {
+		l = append(l, idCfg{true, id, id == 0x060504030201})
 	}
 	return l
 }
@@ -435,7 +435,33 @@ func optionals() [][]byte {
 	return [][]byte{nil, {0xff}, big}
 }
 
+type fkey struct {
+	flavor   string
+	six      bool
+	checksum byte
+}
+
+type item struct {
+	n    int
+	cols []ref.Column
+	core bool // member of the reduced schema set of the quick head product
+}
+
+func cfgOf(six bool, cs byte) ref.Cfg {
+	return ref.Cfg{Checksum: cs, TableID6: six, ServerID: 1, ServerVer: "5.7.30-log"}
+}
+
 // RunDecode is the decode half of C15.
+//
+// Two products are enumerated completely (no input is executed twice):
+//
+//	tail product: EVERY (column count, type sequence, nullability bitmap) x db
+//	  name length x table name length x optional trailer x checksum x id width
+//	  (flags 1, byte-pattern id, mysql56 constructor);
+//	head product: every table id x flags x db name length x table name length x
+//	  optional trailer x checksum x constructor, over a schema set: in quick the
+//	  core schemas (every 16th rotation + two uniform tables per count) with the
+//	  four dense bitmaps; in thorough every schema with the quick bitmap set.
 func RunDecode(r *chk.Run) {
 	thorough := r.Thorough()
 	variants := Variants()
@@ -444,7 +470,7 @@ func RunDecode(r *chk.Run) {
 		counts = []int{1, 2, 3, 4, 5, 7, 8, 9, 16, 17, 64, 65, 249, 250, 251, 252, 253, 255, 256, 257, 300, 512, 600}
 	}
 	nameLens := []int{1, 2, 64, 255}
-	flags := []uint16{0, 1, 0xffff}
+	flags := []uint16{1, 0, 0xffff}
 	ids := idCfgs()
 	opts := optionals()
 	checksums := []byte{ref.ChecksumOff, ref.ChecksumCRC32}
@@ -458,16 +484,7 @@ func RunDecode(r *chk.Run) {
 		dbNames = append(dbNames, MakeName(n, rot))
 		tblNames = append(tblNames, MakeName(n, rot+3))
 	}
-	// formats per (flavor, width, checksum)
-	type fkey struct {
-		flavor   string
-		six      bool
-		checksum byte
-	}
 	formats := map[fkey]replication.BinlogFormat{}
-	cfgOf := func(six bool, cs byte) ref.Cfg {
-		return ref.Cfg{Checksum: cs, TableID6: six, ServerID: 1, ServerVer: "5.7.30-log"}
-	}
 	for _, fl := range flavors {
 		for _, six := range []bool{false, true} {
 			for _, cs := range checksums {
@@ -479,80 +496,140 @@ func RunDecode(r *chk.Run) {
 			}
 		}
 	}
-	// work items: (count, sequence)
-	type item struct {
-		n    int
-		cols []ref.Column
-	}
 	var items []item
 	seqCount := map[int]int{}
 	patCount := map[int]int{}
 	patterns := map[int][][]bool{}
+	headPatterns := map[int][][]bool{}
+	firstTwoByte := 0
+	for i, v := range variants {
+		if len(v.Meta) == 2 {
+			firstTwoByte = i
+			break
+		}
+	}
 	for _, n := range counts {
 		ss := Sequences(variants, n)
 		seqCount[n] = len(ss)
-		for _, s := range ss {
-			items = append(items, item{n, s})
+		for i, s := range ss {
+			core := i%16 == 0
+			if n > len(variants) && (i == len(variants) || i == len(variants)+firstTwoByte) {
+				core = true // uniform tables: no metadata at all / 2n metadata bytes
+			}
+			items = append(items, item{n, s, core})
 		}
 		patterns[n] = NullPatterns(n, thorough)
 		patCount[n] = len(patterns[n])
+		hp := NullPatterns(n, false)
+		if !thorough && len(hp) > 4 {
+			hp = hp[:4]
+		}
+		headPatterns[n] = hp
 	}
-	// The mariadb constructor shares the decoder; it is run on the full
-	// (count, sequence, bitmap, id, checksum, optional) product with one
-	// name pair and one flags value in quick, on everything in thorough.
 	var evals atomic.Int64
 	var cut atomic.Bool
+	one := func(e *int64, flavor string, ic idCfg, cs byte, t *ref.Table) {
+		*e++
+		cfg := cfgOf(ic.six, cs)
+		key, why := checkTable(flavor, cfg, formats[fkey{flavor, ic.six, cs}], t)
+		if why == "" {
+			return
+		}
+		in := inputOf(flavor, cfg, t)
+		r.Report(chk.Violation{
+			Key:    key,
+			What:   in.describe() + ": " + why,
+			Kind:   "tablemap",
+			Replay: in,
+			Recheck: func() string {
+				k, w := CheckInput(in)
+				if w == "" {
+					return ""
+				}
+				return k + ": " + w
+			},
+		})
+	}
+	stop := func() bool {
+		if r.Expired() {
+			cut.Store(true)
+			return true
+		}
+		return r.TooMany()
+	}
+	// ---- tail product ---------------------------------------------------------
 	r.Parallel(func(shard, nshards int) {
 		var e int64
 		defer func() { evals.Add(e) }()
 		for k := shard; k < len(items); k += nshards {
 			it := items[k]
-			t := ref.Table{Cols: make([]ref.Column, it.n)}
+			t := ref.Table{Cols: make([]ref.Column, it.n), Flags: 1}
 			copy(t.Cols, it.cols)
 			for _, pat := range patterns[it.n] {
+				if stop() {
+					return
+				}
 				for i := range t.Cols {
 					t.Cols[i].Nullable = pat[i]
 				}
-				if r.Expired() {
-					cut.Store(true)
-					return
-				}
-				if r.TooMany() {
-					return
-				}
-				for di, db := range dbNames {
-					for ti, tn := range tblNames {
+				for _, db := range dbNames {
+					for _, tn := range tblNames {
 						t.DB, t.Name = db, tn
-						for fi, fl := range flags {
-							t.Flags = fl
+						for _, opt := range opts {
+							t.Optional = opt
 							for _, ic := range ids {
+								if !ic.asym {
+									continue
+								}
 								t.ID = ic.id
-								for _, opt := range opts {
-									t.Optional = opt
+								for _, cs := range checksums {
+									one(&e, FlavorMysql56, ic, cs, &t)
+								}
+							}
+						}
+					}
+				}
+			}
+		}
+	})
+	tailEvals := evals.Load()
+	// ---- head product ---------------------------------------------------------
+	r.Parallel(func(shard, nshards int) {
+		var e int64
+		defer func() { evals.Add(e) }()
+		k := -1
+		for _, it := range items {
+			if !thorough && !it.core {
+				continue
+			}
+			k++
+			if k%nshards != shard {
+				continue
+			}
+			t := ref.Table{Cols: make([]ref.Column, it.n)}
+			copy(t.Cols, it.cols)
+			for _, pat := range headPatterns[it.n] {
+				if stop() {
+					return
+				}
+				for i := range t.Cols {
+					t.Cols[i].Nullable = pat[i]
+				}
+				for _, db := range dbNames {
+					for _, tn := range tblNames {
+						t.DB, t.Name = db, tn
+						for _, opt := range opts {
+							t.Optional = opt
+							for _, fl := range flags {
+								t.Flags = fl
+								for _, ic := range ids {
+									t.ID = ic.id
 									for _, cs := range checksums {
-										cfg := cfgOf(ic.six, cs)
 										for _, flavor := range flavors {
-											if flavor == FlavorMariadb && !thorough && (di != 0 || ti != 3 || fi != 2) {
-												continue
+											if flavor == FlavorMysql56 && fl == 1 && ic.asym {
+												continue // executed by the tail product
 											}
-											e++
-											key, why := checkTable(flavor, cfg, formats[fkey{flavor, ic.six, cs}], &t)
-											if why != "" {
-												in := inputOf(flavor, cfg, &t)
-												r.Report(chk.Violation{
-													Key:    key,
-													What:   in.describe() + ": " + why,
-													Kind:   "tablemap",
-													Replay: in,
-													Recheck: func() string {
-														k, w := CheckInput(in)
-														if w == "" {
-															return ""
-														}
-														return k + ": " + w
-													},
-												})
-											}
+											one(&e, flavor, ic, cs, &t)
 										}
 									}
 								}
@@ -563,13 +640,11 @@ func RunDecode(r *chk.Run) {
 			}
 		}
 	})
-	if cut.Load() {
-		r.SetExhaustive(false)
-	} else {
-		r.SetExhaustive(true)
-	}
+	r.SetExhaustive(!cut.Load())
 	r.Eval(evals.Load())
 	r.DistinctN(evals.Load())
+	r.Set("decode_tail_product_inputs", tailEvals)
+	r.Set("decode_head_product_inputs", evals.Load()-tailEvals)
 	// samples: real encoded events
 	{
 		cfg := cfgOf(true, ref.ChecksumCRC32)
@@ -605,13 +680,14 @@ func RunDecode(r *chk.Run) {
 	r.Set("decode_flags", "{0, 1, 0xffff}")
 	r.Set("decode_optional_metadata", "{none, 1 byte 0xff, 300 bytes (TLV header + 0xff run + counter)}")
 	r.Set("decode_checksum", "{off, CRC32}")
-	if thorough {
-		r.Set("decode_flavors", "NewMysql56BinlogEvent and NewMariadbBinlogEvent on the full product")
-	} else {
-		r.Set("decode_flavors", "NewMysql56BinlogEvent on the full product; NewMariadbBinlogEvent on the product with names (1, 255) bytes and flags 0xffff")
-	}
+	r.Set("decode_constructors", "NewMysql56BinlogEvent, NewMariadbBinlogEvent")
 	r.Set("decode_header_length", 19)
-	r.Rule("decode half: odometer over column count x type sequence (the " + fmt.Sprint(len(variants)) + "-entry type/metadata lattice cycled from every rotation, plus each entry repeated) x nullability bitmap (exhaustive <= 4 columns, structured beyond) x db name length x table name length x flags x table id (value and width) x optional-metadata trailer x checksum x event constructor; every combination is a distinct table-map event built by the reference encoder, decoded by TableID/TableMap and compared field by field (id, flags, names, types, metadata words, nullability bits)")
+	if thorough {
+		r.Set("decode_products", "tail: all schemas x all bitmaps x names x optional x checksum x id width; head: all schemas x quick bitmap set x ids x flags x names x optional x checksum x constructor")
+	} else {
+		r.Set("decode_products", "tail: all schemas x all bitmaps x names x optional x checksum x id width; head: core schemas (every 16th rotation + 2 uniform tables per count) x 4 dense bitmaps x ids x flags x names x optional x checksum x constructor")
+	}
+	r.Rule("decode half: odometer over column count x type sequence (the " + fmt.Sprint(len(variants)) + "-entry type/metadata lattice cycled from every rotation, so that every entry meets every column position, plus each entry repeated) x nullability bitmap (exhaustive <= 4 columns, structured beyond) x db name length x table name length x flags x table id (value and width) x optional-metadata trailer x checksum x event constructor, as two complete products (tail, head) without repeated inputs; every input is a distinct table-map event built by the reference encoder, decoded by TableID/TableMap and compared field by field (id, flags, names, types, metadata words, nullability bits)")
 	r.Assume("table-map events are well-formed (what a server writes); truncated / corrupt events are C17")
 	r.Assume("database and table names are 1..255 bytes without NUL (identifier rules of the server)")
 	r.Assume("types TINY_BLOB/MEDIUM_BLOB/LONG_BLOB/ENUM/SET/VAR_STRING/DECIMAL/NEWDATE/NULL are enumerated although current servers log them as BLOB/STRING/...: the decoder declares them supported")
